@@ -352,10 +352,15 @@ def declare_group(w):
 
     def alloc_post(a, h, h2, r):
         c = h("Group", a.self, "_autoidcounter")
-        att2 = h2.sv("XSpec", a.spec, "$attr")
+        att, att2 = h.sv("XSpec", a.spec, "$attr"), h2.sv("XSpec", a.spec, "$attr")
         new_id = z3.Concat(GW, dec(c))
         L = gws(h, a.self)
-        return [z3.If(spec_id_none(h, a.spec),
+        # nothing but the id of the spec is touched (makegateway goes on reading the other keys)
+        others_kept = z3.If(spec_id_none(h, a.spec),
+                            z3.And(att2.v[0] == z3.Store(att.v[0], ID, True), att2.v[1][0] == z3.Store(att.v[1][0], ID, False), att2.v[1][1] == z3.Store(att.v[1][1], ID, new_id)),
+                            core.eq_sv(att2, att))
+        return [others_kept,
+                z3.If(spec_id_none(h, a.spec),
                       z3.And(h2("Group", a.self, "_autoidcounter") == c + 1,            # counter strictly increases
                              z3.Select(att2.v[0], ID), z3.Not(z3.Select(att2.v[1][0], ID)), z3.Select(att2.v[1][1], ID) == new_id,
                              z3.Implies(z3.And(Jg >= 0, Jg < slen(L)), gid(h, L[Jg]) != new_id)),    # not the id of a current member
@@ -374,17 +379,25 @@ def declare_group(w):
         q = z3.Int("qt")
         return z3.And(explicit(h, a.spec), z3.Exists([q], z3.And(q >= 0, q < slen(L), gid(h, L[q]) == explicit_id(h, a.spec))))
 
+    def id_fresh_all(a, h, h2):
+        """the two Jg-clauses of the postcondition, for every position (the body is verified for an arbitrary Jg)"""
+        q = z3.Int("q_fr")
+        L = gws(h, a.self)
+        the_id = z3.Select(h2.sv("XSpec", a.spec, "$attr").v[1][1], ID)
+        return z3.Implies(z3.Or(spec_id_none(h, a.spec), explicit(h, a.spec)), z3.ForAll([q], z3.Implies(z3.And(q >= 0, q < slen(L)), gid(h, L[q]) != the_id), patterns=[L[q]]))
+
     def alloc_explicit_post(a, h, h2, r):
         L = gws(h, a.self)
-        return alloc_post(a, h, h2, r) + [z3.Implies(z3.And(explicit(h, a.spec), Jg >= 0, Jg < slen(L)), gid(h, L[Jg]) != explicit_id(h, a.spec))]
+        return alloc_post(a, h, h2, r) + [z3.Implies(z3.And(explicit(h, a.spec), Jg >= 0, Jg < slen(L)), gid(h, L[Jg]) != explicit_id(h, a.spec)),
+                                          z3.Implies(explicit(h, a.spec), slen(explicit_id(h, a.spec)) > 0)]      # an accepted id is not empty (_register asserts it - after the process exists)
 
     w.add(Contract(
         f"{MULTI}:Group.allocate_id", {"self": REF("Group"), "spec": REF("XSpec")},
         requires=lambda a, h: [("spec-not-none", a.spec != 0), ("lock-exists", h("Group", a.self, "_autoidlock") != 0), ("members-nonnull", members_nonnull_all(h, a.self))],
         linearize_at_lock=True,
         modifies=lambda a, h: [("Group", a.self, "_autoidcounter"), ("XSpec", a.spec, "$attr"), ("XSpec", a.spec, "$keys")],
-        cases=[Case("ok", post=alloc_explicit_post),
-               Case("taken", "raise", "ValueError", when=lambda a, h: z3.Or(spec_id_none(h, a.spec), taken(a, h)),
+        cases=[Case("ok", post=alloc_explicit_post, post_assume=lambda a, h, h2, r: alloc_explicit_post(a, h, h2, r) + [id_fresh_all(a, h, h2)]),
+               Case("taken", "raise", "ValueError", when=lambda a, h: z3.Or(spec_id_none(h, a.spec), taken(a, h), z3.And(explicit(h, a.spec), slen(explicit_id(h, a.spec)) == 0)),
                     post=lambda a, h, h2, e: [z3.Implies(z3.Not(spec_id_none(h, a.spec)), h2("Group", a.self, "_autoidcounter") == h("Group", a.self, "_autoidcounter"))])],
         props=["C20", "C05"]))
 
@@ -442,13 +455,18 @@ def declare_group(w):
 
     w.call_hooks[("setattr", "ref:Gateway._group")] = set_group
 
+    def id_among(h, g, i):
+        q = z3.Int("q_ia")
+        L = gws(h, g)
+        return z3.Exists([q], z3.And(q >= 0, q < slen(L), gid(h, L[q]) == i))
+
     w.add(Contract(
         f"{MULTI}:Group._register", {"self": REF("Group"), "gateway": REF("Gateway")},
         requires=lambda a, h: [("gateway-not-none", a.gateway != 0), ("lock-exists", h("Group", a.self, "_autoidlock") != 0)],
         linearize_at_lock=True,
         modifies=lambda a, h: [("Group", a.self, "_gateways"), ("Group", a.self, "_autoidcounter"), ("Gateway", a.gateway, "_group"), ("Gateway", a.gateway, "$has_group")],
         cases=[Case("ok", post=reg_post, post_assume=lambda a, h, h2, r: reg_post(a, h, h2, r)[:4] + [distinct_ids_all(h2, a.self), members_nonnull_all(h2, a.self)]),
-               Case("rejected", "raise", "AssertionError",
+               Case("rejected", "raise", "AssertionError", when=lambda a, h: z3.Or(z3.Not(reg_ok(a, h)), id_among(h, a.self, gid(h, a.gateway))),
                     post=lambda a, h, h2, e: [gws(h2, a.self) == gws(h, a.self)])],
         props=["C20", "C05"]))
     return w
@@ -462,3 +480,160 @@ def HeapViewHolds(st, lock_ref):
     from pyvc.contracts import HeapView
 
     return HeapView(st.heap, st.held).holds(lock_ref)
+
+
+# ======================================================================================
+# Group.makegateway: every interpreter that was started ends up registered (or was never started)
+# ======================================================================================
+def declare_makegateway(w):
+    """world `mk`: the xspec/group world plus trusted summaries of what makegateway calls in other layers (transport creation, bootstrap, the configuration channel).
+    History variable Group.$bootstrapped: the gateways whose interpreter was started and answered the bootstrap."""
+    declare(w)
+    s = w.schema
+    distinct_ids, distinct_ids_all, members_nonnull, members_nonnull_all = w.group_inv
+    s.declare("Group", "defaultspec", STR)
+    s.declare("Group", "remote_execmodel", REF("ExecModel"))
+    s.declare("Group", "_execmodel", REF("ExecModel"))
+    s.declare("Group", "$bootstrapped", SEQ(REF("Gateway")), ghost=True)
+    s.declare("ExecModel", "backend", STR)
+    s.declare("Gateway", "spec", REF("XSpec"))
+    s.declare("Gateway", "$configured", BOOL, ghost=True)       # the chdir/nice/env script was sent to it
+    for cls in ("ExecModel", "IOany", "Channel", "ProxyIO"):
+        s.set_bases(cls, ["object"])
+    gws = lambda h, g: h("Group", g, "_gateways")
+    gid = lambda h, x: h("Gateway", x, "id")
+    boots = lambda h, g: h("Group", g, "$bootstrapped")
+    w.attr_hooks[("Group", "execmodel")] = lambda ex, st, recv: st.heap.get(recv, "_execmodel")
+    spec_txt = lambda h, sp, name: z3.Select(h.sv("XSpec", sp, "$attr").v[1][1], z3.StringVal(name))
+    spec_has = lambda h, sp, name: z3.Select(h.sv("XSpec", sp, "$attr").v[0], z3.StringVal(name))
+
+    def co(val, ty):
+        if ty == ANY and val.ty.kind in ("tuple", "set", "map"):
+            return core.fresh(ANY, "item")        # what is sent over the configuration / proxy channel: opaque here
+        return None
+
+    co.__name__ = "co_mk"
+    core.COERCE_HOOKS[:] = [h_ for h_ in core.COERCE_HOOKS if getattr(h_, "__name__", "") != "co_mk"] + [co]
+    w.externals["builtins.vars"] = lambda ex, args, kwargs, st, sink, node: iter([(st, core.fresh(ANY, "vars"))])
+
+    def b_int(ex, args, kwargs, st, sink, node):
+        (v,) = args
+        if v.ty.kind in ("int", "bool"):
+            yield st, core.coerce(v, INT)
+            return
+        if v.ty.kind != "str":
+            raise Unsupported(f"int({v.ty!r})")
+        ok = st.fork()
+        yield ok, core.fresh(INT, "int")
+        ex.raise_(st.fork(), sink, "ValueError", origin="int() of a non-numeric text")
+
+    w.externals["builtins.int"] = b_int
+    GIO, GSOCK, GBOOT, GW_ = "execnet.gateway_io", "execnet.gateway_socket", "execnet.gateway_bootstrap", "execnet.gateway"
+    fresh_chan = lambda a, h, h2, r: [r != 0]
+    for variant, sty in (("module", FUNCT), ("string", STR)):
+        w.add(Contract(f"{GW_}:Gateway.remote_exec", {"self": REF("Gateway"), "source": sty},
+                       requires=lambda a, h: [("gateway", a.self != 0)], modifies=lambda a, h: [("Gateway", a.self, "$configured")],
+                       cases=[Case("ok", restype=REF("Channel"), post=lambda a, h, h2, r: [r != 0, h2("Gateway", a.self, "$configured")]), Case("connection-closed", "raise", "OSError")],
+                       trusted=True, allocates=True, note="C06"), variant=variant)
+    from contracts.base import GB as GB_
+    w.add(Contract(f"{GB_}:Channel.send", {"self": REF("Channel"), "item": ANY}, requires=lambda a, h: [("channel", a.self != 0)],
+                   cases=[Case("ok"), Case("closed", "raise", "OSError"), Case("unsupported", "raise", "DumpError")], trusted=True, note="C01/C02"))
+    w.add(Contract(f"{GB_}:Channel.waitclose", {"self": REF("Channel"), "timeout": OPT(INT)}, defaults={"timeout": None}, requires=lambda a, h: [("channel", a.self != 0)],
+                   cases=[Case("closed"), Case("remote-error", "raise", "RemoteError"), Case("connection-lost", "raise", "EOFError")], trusted=True, note="C03"))
+    w.add(Contract(f"{GIO}:ProxyIO.__init__", {"self": REF("ProxyIO"), "proxy_channel": REF("Channel"), "execmodel": REF("ExecModel")},
+                   cases=[Case("ok"), Case("cannot-send", "raise", "OSError")], trusted=True, note="C16"))
+    w.add(Contract(f"{GIO}:create_io", {"spec": REF("XSpec"), "execmodel": REF("ExecModel")},
+                   cases=[Case("ok", restype=REF("IOany"), post=lambda a, h, h2, r: [r != 0]), Case("cannot-start", "raise", "OSError"), Case("bad-spec", "raise", "ValueError")],
+                   trusted=True, allocates=True, note="starts the interpreter process (popen / ssh / vagrant_ssh)"))
+    w.add(Contract(f"{GSOCK}:create_io", {"spec": REF("XSpec"), "group": REF("Group"), "execmodel": REF("ExecModel")},
+                   cases=[Case("ok", restype=REF("IOany"), post=lambda a, h, h2, r: [r != 0]), Case("cannot-connect", "raise", "OSError"), Case("host-not-found", "raise", "HostNotFound"),
+                          Case("install-failed", "raise", "RemoteError"), Case("no-via", "raise", "KeyError"), Case("bad-address", "raise", "ValueError")],
+                   trusted=True, allocates=True, note="connects (after installing the socket server through installvia)"))
+
+    # spec attributes as makegateway uses them: for truth and, where a value is needed (via, chdir, nice, id, execmodel), as text.  Two outcomes per read instead of
+    # three (absent / bare / text) keep the path count of this long function manageable; a key that takes a value is required to have one (precondition `valued-keys`)
+    VALUED = ("via", "ssh", "socket", "python", "chdir", "nice", "id", "execmodel", "installvia", "vagrant_ssh", "ssh_config")
+
+    def spec_read2(name):
+        def hook(ex, st, recv):
+            att = st.heap.get(recv, "$attr")
+            k = z3.StringVal(name)
+            pres, bare, txt = z3.Select(att.v[0], k), z3.Select(att.v[1][0], k), z3.Select(att.v[1][1], k)
+            if name in VALUED:
+                for s2, p in ex.fork(st, pres):
+                    yield s2, (SV(STR, txt) if p else NONEV)
+            else:
+                for s2, truthy in ex.fork(st, z3.And(pres, z3.Or(bare, slen(txt) > 0))):
+                    yield s2, (mk_bool(True) if truthy else NONEV)      # popen, dont_write_bytecode: only their truth is used here
+        return hook
+
+    for nm in VALUED + ("popen", "dont_write_bytecode"):
+        w.attr_hooks[("XSpec", nm)] = spec_read2(nm)
+    valued_keys = lambda h, sp: z3.And(*[z3.Implies(spec_has(h, sp, n), z3.Not(z3.Select(h.sv("XSpec", sp, "$attr").v[1][0], z3.StringVal(n)))) for n in VALUED])
+    PROC = z3.IntVal(1)      # the one process: history of the gateways whose interpreter was started and answered the bootstrap
+    s.declare("Proc", "$booted", SEQ(REF("Gateway")), ghost=True)
+    s.set_bases("Proc", ["object"])
+    booted = lambda h: h("Proc", PROC, "$booted")
+    id_given = lambda h, sp: z3.And(spec_has(h, sp, "id"), z3.Not(z3.Select(h.sv("XSpec", sp, "$attr").v[1][0], z3.StringVal("id"))))
+
+    def boot_post(a, h, h2, r):
+        return [r != 0, z3.Not(h2("Gateway", r, "$has_group")), z3.Not(h2("Gateway", r, "$configured")), gid(h2, r) == spec_txt(h, a.spec, "id"), slen(gid(h2, r)) > 0,
+                z3.Not(z3.Contains(booted(h), z3.Unit(r))), booted(h2) == z3.Concat(booted(h), z3.Unit(r))]
+
+    w.add(Contract(f"{GBOOT}:bootstrap", {"io": REF("object"), "spec": REF("XSpec")},
+                   requires=lambda a, h: [("transport", a.io != 0), ("spec", a.spec != 0), ("id-allocated", z3.And(id_given(h, a.spec), slen(spec_txt(h, a.spec, "id")) > 0))],
+                   modifies=lambda a, h: [("Proc", PROC, "$booted")],
+                   cases=[Case("ok", restype=REF("Gateway"), post=boot_post),
+                          Case("failed", "raise", "Exception", post=lambda a, h, h2, e: [booted(h2) == booted(h)])],
+                   trusted=True, allocates=True, note="C15: sends the bootstrap, waits for the '1', returns the Gateway object (finding C05-F5: a failing bootstrap may leave the started program behind)"))
+
+    # ---- makegateway ---------------------------------------------------------------------------------------------------------------
+    MK = f"{MULTI}:Group.makegateway"
+
+    def none_left_behind(a, h, h2):
+        """on EVERY exit: a gateway whose interpreter was started in this call is a member of the group (so terminate() will exit, join and kill it)"""
+        B, B2 = booted(h), booted(h2)
+        g = B2[slen(B)]
+        return z3.Or(B2 == B, z3.And(B2 == z3.Concat(B, z3.Unit(g)), z3.Contains(gws(h2, a.self), z3.Unit(g))))
+
+    def mk_ok(a, h, h2, r):
+        L = gws(h, a.self)
+        return [r != 0, gws(h2, a.self) == z3.Concat(L, z3.Unit(r)), h2("Gateway", r, "_group") == a.self, h2("Gateway", r, "spec") != 0,
+                slen(gid(h2, r)) > 0, booted(h2) == z3.Concat(booted(h), z3.Unit(r)),
+                z3.Implies(z3.And(Jm >= 0, Jm < slen(L)), gid(h2, r) != gid(h, L[Jm]))]          # its id is no earlier member's id (carried for an arbitrary position)
+
+    Jm = z3.Int("Jg")      # the free position constant of the group world: allocate_id's postcondition is carried for it
+    inv = lambda a, h: [("lock-exists", h("Group", a.self, "_autoidlock") != 0), ("members-nonnull", members_nonnull_all(h, a.self)), ("distinct-ids", distinct_ids_all(h, a.self)),
+                        ("has-models", z3.And(h("Group", a.self, "_execmodel") != 0, h("Group", a.self, "remote_execmodel") != 0))]
+    MKMOD = lambda a, h: [("Group", a.self, "_gateways"), ("Group", a.self, "_autoidcounter"), ("Proc", PROC, "$booted"), ("Gateway", None, "_group"), ("Gateway", None, "$has_group"),
+                          ("Gateway", None, "spec"), ("Gateway", None, "$configured"), ("XSpec", None, "$attr"), ("XSpec", None, "$keys"), ("XSpec", None, "_spec"), ("XSpec", None, "env")]
+    failing = [Case(n_, "raise", e_, post=lambda a, h, h2, e: [none_left_behind(a, h, h2)]) for n_, e_ in (
+        ("no-type-or-bad-value", "ValueError"), ("unknown-via-gateway", "KeyError"), ("via-with-socket", "AssertionError"), ("transport-or-channel", "OSError"),
+        ("connection-lost", "EOFError"), ("remote-side-failed", "RemoteError"), ("bootstrap-failed", "Exception"), ("bad-spec-text", "AttributeError"), ("empty-key", "IndexError"))]
+    # One contract, verified in 24 pieces: the input domain is partitioned by which transport key is the first truthy one (in the documented order via, popen, ssh,
+    # vagrant_ssh, socket, none) and by which of chdir / nice are given.  The partition is about the INPUT only (it does not follow the code's branch structure);
+    # every piece is checked against the same postcondition, and the pieces cover the precondition (lemma obligation below).  It exists to keep the number of
+    # paths per symbolic execution small and to spread the work over the worker processes.
+    truthy = lambda h, sp, n: z3.And(spec_has(h, sp, n), z3.Or(z3.Select(h.sv("XSpec", sp, "$attr").v[1][0], z3.StringVal(n)), slen(spec_txt(h, sp, n)) > 0))
+    ORDER = ("via", "popen", "ssh", "vagrant_ssh", "socket")
+
+    def transport_is(h, sp, t):
+        if t == "none":
+            return z3.And(*[z3.Not(truthy(h, sp, n)) for n in ORDER])
+        i = ORDER.index(t)
+        return z3.And(truthy(h, sp, t), *[z3.Not(truthy(h, sp, n)) for n in ORDER[:i]])
+
+    pieces = []
+    for t in ORDER + ("none",):
+        for cfg in ("plain", "chdir", "nice", "chdir+nice"):
+            def narrow(a, h, t=t, cfg=cfg):
+                return z3.And(transport_is(h, a.spec, t), truthy(h, a.spec, "chdir") == ("chdir" in cfg), truthy(h, a.spec, "nice") == ("nice" in cfg))
+            pieces.append(narrow)
+            c = Contract(MK, {"self": REF("Group"), "spec": REF("XSpec")},
+                         requires=(lambda narrow: lambda a, h: inv(a, h) + [("spec", a.spec != 0), ("valued-keys", valued_keys(h, a.spec)), ("piece-of-the-input-domain", narrow(a, h))])(narrow),
+                         modifies=MKMOD, cases=[Case("ok", restype=REF("Gateway"), post=lambda a, h, h2, r: mk_ok(a, h, h2, r) + [h2("Gateway", r, "spec") == a.spec])] + failing,
+                         props=["C05", "C20"], allocates=True)
+            c.verify_only = True
+            w.add(c, variant=f"{t}.{cfg}")
+    w.mk_pieces = pieces
+    return w
